@@ -59,7 +59,7 @@ def shard_a(s, ns, tier, seed):
             seen.add(b)
             r = roundtrip(ia32, b)
             if r is None:
-                part.ok(core.h64(b))
+                part.ok(core.h64(b), sample={'line': line, 'candidate': b.hex()} if len(part.samples) < 2 else None)
             else:
                 part.n += 1
                 if r[2]:
@@ -143,7 +143,7 @@ def shard_b(s, ns, tier, seed):
                 meta, mx = uniq[k]
                 r = roundtrip(ia32, k)
                 if r is None:
-                    part.ok(core.h64(k), outcome=mx[2].split()[0])
+                    part.ok(core.h64(k), outcome=mx[2].split()[0], sample={'canonical bytes': k.hex(), 'rendering': mx[2].strip()} if len(part.samples) < 3 else None)
                 else:
                     part.n += 1
                     seg = ' seg' if set(meta[0]) & {0x26, 0x2e, 0x36, 0x3e, 0x64, 0x65} else ''
@@ -160,7 +160,6 @@ def run(tier, seed):
     pb = core.run_sharded(shard_b, (tier, seed), nshards=core.NPROC * 6)
     part.counters['canonical_strings_round_tripped'] = len(pb.keys)
     part.merge(pb)
-    part.samples = [{'line': 'paddd xmm0, xmm1', 'candidate': '660ffec1'}, {'bytes': '8b4180', 'text': 'mov eax, DWORD PTR [ecx-128]'}] + part.samples[:2]
     rule = ('(a) every line of L_asm that asm accepts (vocabulary x operand-shape alphabet, arity 0..2, + corpus) x every distinct candidate b: '
             'dis(b) is an instruction of length len(b) and b is in asm(str(dis(b))). (b) every string of S_x86 that miasmX decodes, de-duplicated by '
             'decoded prefix, that is canonical = GNU as (AT&T mode) applied to objdump\'s AT&T text of the prefix returns exactly the prefix: the prefix '
